@@ -224,8 +224,19 @@ def mutate(data, rng):
                 val = bytes(rng.choice([b"PER-FREQUENCY", b"50 0", b"50 0 75 0",
                                         b"50 0 75 0 60 -1", b"1 0 1 0 1 0 1 0"]))
             elif kw == b"parameters":
-                val = bytes(rng.choice([b"Sri", b"Zma", b"SdB,Zri", b"ri", b"IL",
-                                        b"Tri", b"Zinri"]))
+                # a parameter name x a coordinate system, also the pairs
+                # that do not exist (ZindB, PRCma, ILri ...), in any case
+                nm = bytes(rng.choice([b"S", b"Z", b"Y", b"T", b"U", b"H", b"G",
+                                       b"A", b"B", b"Zin", b"PRC", b"PRL",
+                                       b"SRC", b"SRL", b"IL", b"RL", b"VSWR",
+                                       b""]))
+                co = bytes(rng.choice([b"ri", b"ma", b"dB", b"", b"db", b"RI",
+                                       b"DB", b"mA"]))
+                val = nm + co
+                if rng.random() < 0.3:
+                    val = bytes(rng.choice([b"Sri", b"Zma", b"ri"])) + b"," + val
+                if rng.random() < 0.3:
+                    val = val.lower() if rng.random() < 0.5 else val.upper()
             elif kw == b"version":
                 val = bytes(rng.choice([b"1.0", b"1.1", b"2.0", b"0.9"]))
             else:
